@@ -1,0 +1,20 @@
+//go:build verif
+
+package downloader
+
+// Contracts checked by /verif (gvc). This file contains comments only and is compiled only with -tags verif.
+//
+// Property C15: momentums delivered by a sync peer are placed into the fixed download window by a slot index computed from the
+// wire-supplied Height; no height may index outside the window (an out-of-range index panics in the fetch goroutine, where
+// nothing recovers, and takes the whole node down). The function is marked `safety`; the check claims its index/slice-bounds
+// obligations (the nil-dereference obligations depend on the well-formedness of decoded messages and of the request
+// bookkeeping, which is not under contract).
+//@ func queue.Deliver(q, id, blocks) -> (err)
+//@   safety
+//@   requires q != nil
+//@ func queue.GetHeadBlock(q)
+//@   safety
+//@   requires q != nil
+//@ func queue.GetBlock(q, hash)
+//@   safety
+//@   requires q != nil
